@@ -1,7 +1,7 @@
-(* C14 phase 2: agreement of the two reader models on modules without blackbox instances (part B5) *)
+(* C14 phase 2: agreement of the two reader models on the documented subset (part B5) *)
 From stdpp Require Import strings gmap sets pretty.
 From CG Require Import Model.FastVerilog Proofs.FastVerilogProofs Gen.Gen_fastv.
-From CG Require Import Proofs.FvA0 Proofs.FvA1 Proofs.FvA2 Proofs.FvA3 Proofs.FvA4 Proofs.FvA5 Proofs.FvA6 Proofs.FvA7 Proofs.FvA8 Proofs.FvA9 Proofs.FvA10 Proofs.FvB1 Proofs.FvB2 Proofs.FvB3 Proofs.FvB4.
+From CG Require Import Proofs.FvA0 Proofs.FvA1 Proofs.FvA2 Proofs.FvP1 Proofs.FvE1 Proofs.FvE2 Proofs.FvE3 Proofs.FvE4 Proofs.FvA3 Proofs.FvE5 Proofs.FvE6 Proofs.FvE7 Proofs.FvA4 Proofs.FvA5 Proofs.FvA6 Proofs.FvA7 Proofs.FvA8 Proofs.FvA9 Proofs.FvA10 Proofs.FvB1 Proofs.FvB2 Proofs.FvB3 Proofs.FvB4.
 Open Scope string_scope.
 
 Lemma drop_if_unused g t : (∀ m i, g !! m = Some i → t ∉ n_fi i) → ∀ m, drop_unused g t !! m = if decide (m = t) then None else g !! m.
@@ -11,24 +11,25 @@ Proof.
   destruct (decide (m = t)) as [->|]; [by rewrite decide_True|]. rewrite decide_False by tauto. done.
 Qed.
 
-Theorem fast_sem_char a bbs : in_subset a bbs = true → no_inst a = true →
-  ∃ g3 g4, (∀ m, g3 !! m = lookF (kt0 a) (kt1 a) (sF (kt0 a) (kt1 a) a) m) ∧
+Theorem fast_sem_char a bbs : in_subset a bbs = true →
+  ∃ g3 g4 B, (∀ m, g3 !! m = lookF (kt0 a) (kt1 a) (sF (kt0 a) (kt1 a) bbs a) m) ∧
     (∀ m, g4 !! m = mark (decl_outputs a) g3 m) ∧
-    fast_sem a bbs = Ok {| c_name := a_name a; c_g := drop_unused (drop_unused g4 (kt0 a)) (kt1 a); c_bbs := ∅ |}.
+    fast_sem a bbs = Ok {| c_name := a_name a; c_g := drop_unused (drop_unused g4 (kt0 a)) (kt1 a); c_bbs := B |}.
 Proof.
-  intros Hsub Hni. pose proof (in_subset_facts a bbs Hsub) as HF.
-  exists (fg3' a). 
-  destruct (set_output_lookup (decl_outputs a) (fg3' a)) as (g4 & Hso & Hg4).
-  { intros o Ho. apply elem_of_dom. rewrite (fast_g3_lookup a bbs Hsub Hni). unfold lookF.
+  intros Hsub. pose proof (in_subset_facts a bbs Hsub) as HF. pose proof (fast_fresh a) as Hfr.
+  assert (Hfr3 : kt0 a ∉ idents a ∧ kt1 a ∉ idents a ∧ kt1 a ∉ idents a) by (destruct Hfr; done).
+  exists (fg3' a bbs).
+  destruct (set_output_lookup (decl_outputs a) (fg3' a bbs)) as (g4 & Hso & Hg4).
+  { intros o Ho. apply elem_of_dom. rewrite (fast_g3_lookup a bbs Hsub). unfold lookF.
     destruct (decide (o = kt0 a)); [eauto|]. destruct (decide (o = kt1 a)); [eauto|].
     destruct (sf_outs a bbs HF o Ho) as [Hd|Hi].
-    - rewrite (drivers_eq a bbs (kt0 a) (kt1 a)) in Hd by done. apply elem_of_list_bind in Hd as (it & Hd & Hit).
-      unfold it_driver in Hd. destruct (gate_view (kt0 a) (kt1 a) it) as [[o' v]|] eqn:Ev; [|by apply elem_of_nil in Hd].
-      apply elem_of_list_singleton in Hd as ->. rewrite (view_G a bbs Hsub Hni it o' v Hit Ev). destruct v. eauto.
-    - destruct (sG _ !! o) as [[??]|]; [eauto|]. rewrite (sI_S a bbs Hsub Hni), decide_True by (by apply elem_of_list_to_set). eauto. }
-  exists g4. split; [apply (fast_g3_lookup a bbs Hsub Hni)|]. split; [done|].
+    - apply elem_of_list_bind in Hd as (it & Hd & Hit).
+      pose proof (drivers_sub a bbs (kt0 a) (kt1 a) (kt1 a) HF Hfr3 it o Hit Hd) as Hk. unfold it_driver in Hk. apply elem_of_list_fmap in Hk as ([o' v] & Heq & Hv). simpl in Heq. subst o'.
+      rewrite (view_G a bbs Hsub it o v Hit Hv). destruct v as [??]. eauto.
+    - destruct (sG _ !! o) as [[??]|]; [eauto|]. rewrite (sI_S a bbs Hsub), decide_True by (by apply elem_of_list_to_set). eauto. }
+  exists g4. eexists. split; [apply (fast_g3_lookup a bbs Hsub)|]. split; [done|].
   unfold fast_sem. fold (kt0 a). fold (kt1 a).
-  rewrite (fast_scan_good (kt0 a) (kt1 a)) by (intros; by eapply fgood_of). cbn [rbind].
-  rewrite (fast_assigns_good (kt0 a) (kt1 a)) by (intros; by eapply fgood_of). cbn [s_adds s_edges s_bbs scan0 app foldl].
+  rewrite (fast_scan_good (kt0 a) (kt1 a) bbs) by (intros; by eapply fgood_of). cbn [rbind].
+  rewrite (fast_assigns_good (kt0 a) (kt1 a) bbs) by (intros; by eapply fgood_of). cbn [s_adds s_edges s_bbs scan0 app foldl].
   unfold fg3', fg2, fgt, fg0 in Hso. rewrite Hso. done.
 Qed.
